@@ -29,6 +29,10 @@ type CoreBody struct {
 	// Profile names the generator bias that produced the workload (documentation only).
 	Profile   string `json:"profile,omitempty"`
 	NoMonitor bool   `json:"no_monitor,omitempty"`
+	// ShortDrain: the run holds terms of hours or weeks: at the end the drain client cancels the
+	// requests still queued and releases the holds still held instead of waiting for them, and the
+	// final wait is capped (the lazily discarded wheel entries of those requests outlive the run)
+	ShortDrain bool `json:"short_drain,omitempty"`
 }
 
 // ---------------------------------------------------------------------------------------------
@@ -383,6 +387,9 @@ type genCfg struct {
 	forceFastKeys uint
 	pipelines     bool
 	noMonitor     bool
+	shortDrain    bool
+	minuteVals    []uint16 // values used with the minute flag (default 1-2)
+	noText        bool     // no text connections (they wait for every reply)
 }
 
 func pickU16(r *ssched.Rand, xs []uint16) uint16 { return xs[r.Intn(len(xs))] }
@@ -465,7 +472,7 @@ func genMs(r *ssched.Rand) uint16 {
 func genCore(prop string, seed uint64, tier string, g genCfg) *Scenario {
 	r := ssched.Sub(seed, "gen")
 	pipelineOK = g.pipelines
-	body := &CoreBody{Serial: g.serial, NKeys: between(r, g.nKeys), NLids: between(r, g.nLids), Profile: g.profile, Dbs: []int{0}, NoMonitor: g.noMonitor}
+	body := &CoreBody{Serial: g.serial, NKeys: between(r, g.nKeys), NLids: between(r, g.nLids), Profile: g.profile, Dbs: []int{0}, NoMonitor: g.noMonitor, ShortDrain: g.shortDrain}
 	if g.twoDbs && r.Intn(3) == 0 {
 		body.Dbs = []int{0, 3}
 	}
@@ -480,7 +487,7 @@ func genCore(prop string, seed uint64, tier string, g genCfg) *Scenario {
 		cs := ClientSpec{Kind: "mem", StartMs: r.Intn(300)}
 		if !g.memOnly && r.Intn(3) == 0 {
 			cs.Kind = "bin"
-			if r.Intn(3) == 0 {
+			if r.Intn(3) == 0 && !g.noText {
 				cs.Kind = "text"
 			}
 		}
@@ -517,6 +524,9 @@ func genCore(prop string, seed uint64, tier string, g genCfg) *Scenario {
 				} else if r.Intn(1000) < g.pMinute && o.Timeout > 0 {
 					o.TFlag |= tfMinute
 					o.Timeout = uint16(1 + r.Intn(2))
+					if g.minuteVals != nil {
+						o.Timeout = pickU16(r, g.minuteVals)
+					}
 				}
 				if r.Intn(1000) < g.pMs {
 					o.EFlag |= efMs
@@ -524,6 +534,9 @@ func genCore(prop string, seed uint64, tier string, g genCfg) *Scenario {
 				} else if r.Intn(1000) < g.pMinute {
 					o.EFlag |= efMinute
 					o.Expried = uint16(1 + r.Intn(2))
+					if g.minuteVals != nil {
+						o.Expried = pickU16(r, g.minuteVals)
+					}
 				} else if r.Intn(1000) < g.pUnlim {
 					o.EFlag |= efUnlim
 					if o.Expried == 0 {
@@ -577,6 +590,9 @@ func genCore(prop string, seed uint64, tier string, g genCfg) *Scenario {
 	}
 	raw, _ := json.Marshal(body)
 	sc := &Scenario{Knobs: genKnobs(r), Sched: genSched(r, seed), Body: raw, MaxSimS: 4*maxE + 700}
+	if g.shortDrain {
+		sc.MaxSimS = 3000
+	}
 	if g.forceFastKeys > 0 {
 		sc.Knobs.DBFastKeyCount = g.forceFastKeys
 		if sc.Sched.Strategy == ssched.StratRTB {
@@ -757,7 +773,7 @@ func (cr *coreRun) startDrain() {
 		cr.clients[ci] = c
 		idx := 0
 		for {
-			var todo []kl
+			var todo, cancels []kl
 			busy := false
 			ssched.NoPreempt(func() {
 				for _, r := range cr.h.order {
@@ -790,6 +806,15 @@ func (cr *coreRun) startDrain() {
 						for _, l := range hs {
 							if l.command != nil && l.command.ExpriedFlag&efUnlim != 0 && l.ackCount == 0xff {
 								todo = append(todo, kl{uint8(dbi), m.lockKey, l.command.LockId})
+							} else if cr.body.ShortDrain && l.command != nil && l.ackCount == 0xff && l.expriedTime-db.currentTime > 20 {
+								todo = append(todo, kl{uint8(dbi), m.lockKey, l.command.LockId})
+							}
+						}
+						if cr.body.ShortDrain {
+							for _, l := range waitersOf(m) {
+								if l.command != nil && l.timeoutTime-db.currentTime > 20 {
+									cancels = append(cancels, kl{uint8(dbi), m.lockKey, l.command.LockId})
+								}
 							}
 						}
 					}
@@ -800,6 +825,13 @@ func (cr *coreRun) startDrain() {
 			}
 			for _, t := range todo {
 				op := OpSpec{Cmd: 2, Db: t.db, Key: keyIndex(t.key), Lid: lidIndex(t.lid), Rcount: 0, Wait: true}
+				r := cr.h.invoke(ci, idx, op)
+				idx++
+				_ = c.Send(r)
+				<-r.done
+			}
+			for _, t := range cancels {
+				op := OpSpec{Cmd: 2, Db: t.db, Key: keyIndex(t.key), Lid: lidIndex(t.lid), Flag: protocol.UNLOCK_FLAG_CANCEL_WAIT_LOCK_WHEN_UNLOCKED, Rcount: 0, Wait: true}
 				r := cr.h.invoke(ci, idx, op)
 				idx++
 				_ = c.Send(r)
@@ -830,6 +862,9 @@ func (cr *coreRun) startDrain() {
 			}
 		}
 		if d := horizon.Sub(w.now()); d > 0 {
+			if cr.body.ShortDrain && d > 400*time.Second {
+				d = 400 * time.Second
+			}
 			sleep(d)
 		}
 		w.logf("DRAIN done t=%s", w.simT())
@@ -862,6 +897,41 @@ func (cr *coreRun) summarise() {
 	w.res.Probes["timeouts"] = timeouts
 	w.res.Probes["expiries"] = expired
 	w.res.Nontrivial = granted >= 2 && (waited > 0 || timeouts > 0 || expired > 0)
+}
+
+// genDeepReentry: one LockId takes one key again and again (Rcount 255, 254 or a small bound) up to
+// and past the depth its Rcount allows and past 255, then gives levels back one by one and all at
+// once; a second LockId joins and probes in between (C02, C17).
+func genDeepReentry(prop string, seed uint64, tier string) *Scenario {
+	r := ssched.Sub(seed, "gen")
+	body := &CoreBody{NKeys: 1, NLids: 3, Profile: "deep-reentry", Dbs: []int{0}, Serial: true}
+	rc := []uint8{255, 255, 254, 200, 17}[r.Intn(5)]
+	n := int(rc) + 1 + r.Intn(8)
+	if n > 262 {
+		n = 262
+	}
+	cnt := []uint16{0, 3, 0xffff}[r.Intn(3)]
+	var ops []OpSpec
+	for i := 0; i < n; i++ {
+		ops = append(ops, OpSpec{Cmd: 1, Key: 0, Lid: 0, Count: cnt, Rcount: rc, Expried: 120, DelayMs: r.Intn(2)})
+		if r.Intn(40) == 0 {
+			ops = append(ops, OpSpec{Cmd: 1, Key: 0, Lid: 1, Count: cnt, Rcount: 0, Expried: 30}) // another LockId: admitted only if Count allows
+			ops = append(ops, OpSpec{Cmd: 2, Key: 0, Lid: 1})
+		}
+	}
+	back := r.Intn(n)
+	for i := 0; i < back; i++ {
+		ops = append(ops, OpSpec{Cmd: 2, Key: 0, Lid: 0, Rcount: 1, DelayMs: r.Intn(2)})
+		if r.Intn(30) == 0 {
+			ops = append(ops, OpSpec{Cmd: 1, Key: 0, Lid: 0, Count: cnt, Rcount: rc, Expried: 120}) // up again
+		}
+	}
+	ops = append(ops, OpSpec{Cmd: 2, Key: 0, Lid: 0, Rcount: 0})
+	ops = append(ops, OpSpec{Cmd: 2, Key: 0, Lid: 0, Rcount: 0}) // nothing left: refused
+	ops = append(ops, OpSpec{Cmd: 1, Key: 0, Lid: 2, Count: 0, Rcount: 0, Expried: 2})
+	body.Clients = []ClientSpec{{Kind: "mem", StartMs: 50, Ops: ops}}
+	raw, _ := json.Marshal(body)
+	return &Scenario{Knobs: genKnobs(r), Sched: genSched(r, seed), Body: raw, MaxSimS: 1500}
 }
 
 // genHolderWaves: structured workload for the holder bookkeeping (C02, C17).
